@@ -8,6 +8,7 @@
 package syntax
 
 import (
+    "math"
     "strings"
 )
 
@@ -339,7 +340,12 @@ arr_list
     :
         { $$ = 0 }
     | arr_list '[' ']'
-        { $$++ }
+        {
+            if $1 >= math.MaxInt16 - 1 {
+                return mmlex.(*mmLexInfo).fail("too many array dimensions")
+            }
+            $$ = $1 + 1
+        }
     ;
 
 in_param_list
